@@ -547,6 +547,17 @@ func ExtractFacts(srcPath, dstPath, rel string) (*Facts, error) {
 			}
 			obj, _, _ := types.LookupFieldOrMethod(x, false, x.Obj().Pkg(), "String")
 			j.StringLookup = lookupRes(obj)
+			if v, ok := obj.(*types.Var); ok {
+				// CompliesStringer asks whether the member's type is a signature: a field of function type is as
+				// callable as a method (`x.String()`)
+				if sig, ok := v.Type().(*types.Signature); ok {
+					r := jLookup{K: "method", Name: v.Name(), NParams: sig.Params().Len(), Results: []int{}}
+					for i := 0; i < sig.Results().Len(); i++ {
+						r.Results = append(r.Results, u.id(sig.Results().At(i).Type()))
+					}
+					j.StringLookup = r
+				}
+			}
 		case *types.Pointer:
 			j.Kind = "pointer"
 			j.Elem = u.id(x.Elem())
